@@ -5,7 +5,7 @@ COQ_PROPS = ['Properties_C14']
 RULE = ('operation scripts over several count_min_sketch<int64_t> registers: configurations num_hashes 1..8 (and 255 once), '
         'num_buckets 3..64 incl. non-powers of two, refused configurations, integer and string items from a small universe '
         '(so that collisions and repeats are frequent), non-negative weights (a separate stream of cases mixes in negative '
-        'weights), merges of compatible/incompatible/self operands, queries for tracked and never-seen items, full cell dumps; '
+        'weights), merges of compatible/incompatible/self operands (every sixth case: operands agreeing on some but not all of num_hashes, num_buckets, seed, cell count — same cell count in another shape, transposed shape, other seed), queries for tracked and never-seen items, full cell dumps; '
         'non-trivial = the case has at least one merge or at least 10 updates and one query')
 TRUSTED = ['row seeds (libstdc++ default_random_engine/uniform_int_distribution) are read from the object and passed to the model; '
            'their generation is not modelled',
@@ -33,7 +33,18 @@ def gen(rng, tier):
         seed = rng.choice([9001, 0, 1, 12345678901234567])
         neg = (ci % 7 == 0)
         nreg = rng.choice([1, 2, 3])
-        for r in range(nreg):
+        shapes = None
+        if ci % 6 == 5:
+            # aimed at the case split of cm_merge_refused: operands that agree on some of (num_hashes, num_buckets, seed,
+            # num_hashes*num_buckets) but not on all — same cell count in a different shape, transposed shape, same shape other seed
+            h1, b1, h2, b2 = rng.choice([(2, 12, 3, 8), (1, 24, 8, 3), (2, 6, 3, 4), (4, 4, 2, 8), (3, 5, 5, 3), (2, 32, 4, 16), (6, 4, 3, 8)])
+            kind = rng.randrange(4)
+            shapes = [(h1, b1, seed), (h2, b2, seed)] if kind < 2 else ([(h1, b1, seed), (h1, b1, seed + 1)] if kind == 2 else [(h1, b1, seed), (h1, b2, seed)])
+            if rng.random() < 0.5: shapes.append(shapes[0])
+            nreg = len(shapes); tags.add('merge-shape-mismatch')
+            for r, (h, b, sd) in enumerate(shapes):
+                ops.append([1, r, h, b, sd])
+        for r in range(nreg if shapes is None else 0):
             if rng.random() < 0.15:
                 # possibly incompatible or refused configuration
                 ops.append([1, r, rng.choice([nh, 1, 2]), rng.choice([nb, 2, 0, 3, nb + 1]), rng.choice([seed, seed + 1])])
@@ -52,7 +63,7 @@ def gen(rng, tier):
             elif k < 0.85:
                 it = rng.choice(universe) if rng.random() < 0.8 else item(rng)
                 ops.append([3, r] + it); nq += 1
-            elif k < 0.93:
+            elif k < (0.93 if shapes is None else 0.97):
                 ops.append([4, r, rng.randrange(nreg)]); nm += 1
             else:
                 ops.append([5, r])
